@@ -184,7 +184,23 @@ def worker(case):
     d = ecanon.diff(got2, ecanon.extract(m2), check_prims=False)
     if d:
         probs.append(("round-trip-after-edit-differs:%s:%s" % (d[0], tag), d[1][:400]))
-    return {"key": key, "nontrivial": True, "outcome": "ok", "problems": probs, "transitions": 5}
+    nt = 5
+    if exp is not None and any(it["kind"] == "conn" for it in ead["items"]):
+        # ... and a file read afterwards in the same process is read on its own: the same design without its .conn
+        # statements (the nets they merged stay apart)
+        ead2 = dict(ead, items=[it for it in ead["items"] if it["kind"] != "conn"])
+        order2 = list(range(len(ead2["items"])))
+        nt += 1
+        try:
+            n2 = parse_text(ew.render(ead2, order=order2, models=models))
+            exp2 = ew.expected(ead2, models, order2)
+            got3 = ecanon.extract(n2)
+            d = ecanon.diff(ecanon.match_nameless(exp2, got3), got3)
+            if d:
+                probs.append(("file-read-afterwards-differs:%s:%s" % (d[0], tag), d[1][:400]))
+        except Exception as ex:
+            probs.append(("file-read-afterwards-rejected:%s:%s" % (type(ex).__name__, tag), repr(ex)[:300]))
+    return {"key": key, "nontrivial": True, "outcome": "ok", "problems": probs, "transitions": nt}
 
 
 engine_b.WORKERS[ID] = worker
